@@ -112,7 +112,8 @@ def field_of_view(c, rec):
     # the sensors pass 6x1 slant-range vectors (position and rates): membership depends on the position part only
     rates = (np.array([3.0, -7.0, 5.0]) * (1.0 + c["rho1"] % 7.0), np.array([-6.0, 4.0, 8.0]) * (1.0 + c["rho2"] % 5.0) * max(1.0, c["rho2"] / 50.0))
     p6, t6 = np.concatenate([p[:3], rates[0]]), np.concatenate([t[:3], rates[1]])
-    if bool(cone.inFieldOfView(p6, t6)) != got or bool(rect.inFieldOfView(p6, t6)) != gotr:
+    # (exactly at the zenith the azimuth is taken from the rates by documented convention, so the rectangular test is exempt there)
+    if bool(cone.inFieldOfView(p6, t6)) != got or (not zenith and bool(rect.inFieldOfView(p6, t6)) != gotr):
         raise Violation("fov_uses_rates", f"field-of-view membership changes when the slant-range vectors carry rate components: conic {got} -> {bool(cone.inFieldOfView(p6, t6))}, rectangular {gotr} -> {bool(rect.inFieldOfView(p6, t6))} (pointing az/el {az!r},{el!r}, target {az_t!r},{el_t!r}, rates {rates[1].tolist()})")
     # invariance under a common rotation about the local vertical
     psi = c["psi"]
